@@ -87,10 +87,11 @@ fn from_vec_like<B: From<Vec<f64>>>(_w: &B, v: Vec<f64>) -> B {
     v.into()
 }
 fn build_nd(grid: Vec<Vec<f64>>, shape: &[usize], data: Vec<f64>) -> Result<InterpND, String> {
+    // ArrayD::default() is empty (shape [0]) in ndarray 0.16; only its type is used
     let a0 = dflt(InterpND::new);
-    let w = a0.into_shape_with_order(1usize).map_err(|e| e.to_string())?;
+    let w = a0.into_shape_with_order(0usize).map_err(|e| format!("harness: default array: {}", e))?;
     let a1 = from_vec_like(&w, data);
-    let ad = a1.into_shape_with_order(shape.to_vec()).map_err(|e| e.to_string())?;
+    let ad = a1.into_shape_with_order(shape.to_vec()).map_err(|e| format!("harness: reshape: {}", e))?;
     InterpND::new(grid, ad)
 }
 
@@ -197,7 +198,7 @@ fn run_generic(c: &GCase) -> (Result<Vec<(R, R)>, String>, Result<Vec<(R, R)>, S
     };
     let nd: Result<Vec<(R, R)>, String> = match catch(|| build_nd(c.grid.clone(), &c.shape, c.data.clone())) {
         Err(_) => Err("Panic".into()),
-        Ok(Err(e)) => Err(format!("Err {}", classify_err(&e))),
+        Ok(Err(e)) => { if std::env::var("C14_DEBUG").is_ok() { eprintln!("nd ctor error: {}", e); } Err(format!("Err {}", classify_err(&e))) }
         Ok(Ok(i)) => {
             let it = Interpolator::InterpND(i);
             Ok(c.pts
